@@ -425,13 +425,21 @@ def ob_avg_stats(ctx, res):
     if o["mean0"] not in ("(%s/(p1.end-p1.start))" % "lit:0.0",) and not re.fullmatch(r"\(.*/\(p1\.end-p1\.start\)\)", o["mean0"]):
         res.fail("avgStats/mean0", lits[0], "mean0 must be sum / size; origin %s" % o["mean0"])
         ok = False
-    iff = [n for n in walk_no_nested_fn(fn.body) if n.k == "if" and up(strip(n["cond"])) in ("%s == 0" % B, "0 == %s" % B)]
+    iff, flipped = [], False
+    for n in walk_no_nested_fn(fn.body):
+        if n.k == "if" and n.get("else") is not None:
+            ct = up(strip(n["cond"])).replace(" ", "")
+            if ct in ("%s==0" % B, "0==%s" % B):
+                iff.append(n)
+            elif ct in ("%s!=0" % B, "0!=%s" % B, "%s>0" % B, "0<%s" % B):
+                iff.append(n)
+                flipped = True
     if len(iff) != 1:
         res.fail("avgStats/nan", fn, "mean/min/max must be NaN exactly when no base is covered (bases == 0)")
         ok = False
     else:
-        th = up(iff[0]["then"]).replace(" ", "")
-        el = up(iff[0]["else"]).replace(" ", "")
+        th = up(iff[0]["else" if flipped else "then"]).replace(" ", "")
+        el = up(iff[0]["then" if flipped else "else"]).replace(" ", "")
         if th != "{(f64::NAN,f64::NAN,f64::NAN)}" or el != "{(%s/f64::from(%s),%s,%s)}" % (Sm, B, Mn, Mx):
             res.fail("avgStats/nan-arms", iff[0], "expected (NaN,NaN,NaN) when bases == 0 else (sum/bases, min, max); got %s / %s" % (th, el))
             ok = False
